@@ -71,6 +71,13 @@ pub struct OpOut {
     pub claims: Vec<Claim>,
 }
 
+/// Claims need an affine normalisation (one field inversion) per result: computed only when
+/// a C02 oracle will consume them.
+pub static CLAIMS_ENABLED: std::sync::atomic::AtomicBool = std::sync::atomic::AtomicBool::new(false);
+fn claims_on() -> bool {
+    CLAIMS_ENABLED.load(std::sync::atomic::Ordering::Relaxed)
+}
+
 /// raised by the harness to kill a simulated thread (never by the library)
 pub struct HarnessPanic;
 
@@ -368,6 +375,48 @@ pub struct Shared {
 }
 
 impl Shared {
+    /// Build only the entries the given operations need (Miri engine: table construction is
+    /// far too slow under the interpreter to build everything). Missing entries are empty
+    /// vectors / absent; the operations that would use them are not in the Miri catalogue.
+    pub fn build_for(ops: &[Op]) -> Shared {
+        let p = sp();
+        let mut s = Shared {
+            t3_g1: vec![vec![]; p.g1_nsub],
+            t3_g2: vec![vec![]; p.g2_nsub],
+            t256_g1: vec![],
+            t256_g2: vec![],
+            prep_g1: p.g1.iter().take(p.g1_nsub).map(|x| x.prepare()).collect(),
+            prep_g2: vec![],
+        };
+        let mut need_prep2 = false;
+        for o in ops {
+            match o.k.as_str() {
+                "g1_mul3" => {
+                    let i = o.arg(0) % p.g1_nsub;
+                    if s.t3_g1[i].is_empty() {
+                        let mut t = vec![G1Affine::zero(); 3];
+                        p.g1[i].precomp_3(&mut t);
+                        s.t3_g1[i] = t;
+                    }
+                }
+                "g2_mul3" => {
+                    let i = o.arg(0) % p.g2_nsub;
+                    if s.t3_g2[i].is_empty() {
+                        let mut t = vec![G2Affine::zero(); 3];
+                        p.g2[i].precomp_3(&mut t);
+                        s.t3_g2[i] = t;
+                    }
+                }
+                "miller" => need_prep2 = true,
+                _ => {}
+            }
+        }
+        if need_prep2 {
+            s.prep_g2 = p.g2.iter().take(p.g2_nsub).map(|x| x.prepare()).collect();
+        }
+        s
+    }
+
     pub fn build(with_256: bool) -> Shared {
         let p = sp();
         let mut s = Shared { t3_g1: vec![], t3_g2: vec![], t256_g1: vec![], t256_g2: vec![], prep_g1: vec![], prep_g2: vec![] };
@@ -491,6 +540,9 @@ where
 {
     let a = |i: usize| op.arg(i);
     let claim = |claims: &mut Vec<Claim>, p: usize, k: usize, r: &G, path: &'static str| {
+        if !claims_on() {
+            return;
+        }
         claims.push(Claim::Mul { g: G::ID, p: p % G::npts(), k: k % sp().scalars.len(), got: claim_img::<G>(&r.into_affine()), path });
     };
     match name {
@@ -643,7 +695,9 @@ where
                 let r: G = o.views_b[a(0) % n].scalar(FrRepr(scalar(k)));
                 img_proj(&r, out);
                 // the base of view i is recorded by the plan; claim is added by the executor
-                claims.push(Claim::Mul { g: G::ID, p: usize::MAX - (a(0) % n), k, got: claim_img::<G>(&r.into_affine()), path: "wnaf shared table view" });
+                if claims_on() {
+                    claims.push(Claim::Mul { g: G::ID, p: usize::MAX - (a(0) % n), k, got: claim_img::<G>(&r.into_affine()), path: "wnaf shared table view" });
+                }
             }
         }
         "wnaf_view_s" => {
@@ -654,7 +708,9 @@ where
                 let p = a(1) % G::nsub();
                 let r: G = o.views_s[a(0) % n].base(G::proj(p));
                 img_proj(&r, out);
-                claims.push(Claim::Mul { g: G::ID, p, k: usize::MAX - (a(0) % n), got: claim_img::<G>(&r.into_affine()), path: "wnaf shared digits view" });
+                if claims_on() {
+                    claims.push(Claim::Mul { g: G::ID, p, k: usize::MAX - (a(0) % n), got: claim_img::<G>(&r.into_affine()), path: "wnaf shared digits view" });
+                }
             }
         }
         "wnaf_raw" => {
@@ -701,9 +757,13 @@ where
         }
         "mul3" => {
             let p = a(0) % G::nsub();
-            let r = G::aff(p).mul_precomp_3(FrRepr(scalar(a(1))), &sh_t3[p]);
-            img_proj(&r, out);
-            claim(claims, p, a(1), &r, "mul_precomp_3");
+            if sh_t3[p].is_empty() {
+                out.push(0xfe);
+            } else {
+                let r = G::aff(p).mul_precomp_3(FrRepr(scalar(a(1))), &sh_t3[p]);
+                img_proj(&r, out);
+                claim(claims, p, a(1), &r, "mul_precomp_3");
+            }
         }
         "pre256" => {
             let p = a(0) % G::nsub();
@@ -858,6 +918,39 @@ pub fn eval<'a>(op: &Op, sh: &Shared, rs: &RunShared, tl: &mut ThreadObjs<'a>) -
         }
     }
     match op.k.as_str() {
+        "fields_lite" => {
+            // multiplication-only bundle over the whole tower (no inversions / exponentiations)
+            fn lite<F: Field + Img>(a: &F, b: &F, frob: usize, out: &mut Vec<u8>) {
+                let mut t = *a;
+                t.mul_assign(b);
+                t.img(out);
+                let mut t = *a;
+                t.square();
+                t.img(out);
+                let mut t = *a;
+                t.frobenius_map(frob);
+                t.img(out);
+                let mut t = *a;
+                t.add_assign(b);
+                t.negate();
+                t.sub_assign(b);
+                t.double();
+                t.img(out);
+            }
+            lite(&p.fq[a(0) % p.fq.len()], &p.fq[a(1) % p.fq.len()], 1, &mut out);
+            lite(&p.fr[a(0) % p.fr.len()], &p.fr[a(1) % p.fr.len()], 1, &mut out);
+            lite(&p.fq2[a(0) % p.fq2.len()], &p.fq2[a(1) % p.fq2.len()], 1, &mut out);
+            lite(&p.fq6[a(0) % p.fq6.len()], &p.fq6[a(1) % p.fq6.len()], 1 + a(1) % 5, &mut out);
+            lite(&p.fq12[a(0) % p.fq12.len()], &p.fq12[a(1) % p.fq12.len()], 1 + a(1) % 11, &mut out);
+            let mut t = p.fq12[a(0) % p.fq12.len()];
+            t.mul_by_014(&p.fq2[a(0) % p.fq2.len()], &p.fq2[a(1) % p.fq2.len()], &p.fq2[(a(0) + 1) % p.fq2.len()]);
+            t.img(&mut out);
+            let mut t = p.fq6[a(0) % p.fq6.len()];
+            t.mul_by_01(&p.fq2[a(0) % p.fq2.len()], &p.fq2[a(1) % p.fq2.len()]);
+            t.mul_by_1(&p.fq2[a(1) % p.fq2.len()]);
+            t.mul_by_nonresidue();
+            t.img(&mut out);
+        }
         "fq_ops" => {
             let x = p.fq[a(0) % p.fq.len()];
             field_bundle(&x, &p.fq[a(1) % p.fq.len()], 1 + a(1) % 2, &mut out);
@@ -902,9 +995,9 @@ pub fn eval<'a>(op: &Op, sh: &Shared, rs: &RunShared, tl: &mut ThreadObjs<'a>) -
             }
         }
         "miller" => {
-            let n = a(0) % 4;
+            let n = if sh.prep_g2.is_empty() { 0 } else { a(0) % 4 };
             let pairs: Vec<(&G1Prepared, &G2Prepared)> =
-                (0..n).map(|t| (&sh.prep_g1[(a(1) + t) % sh.prep_g1.len()], &sh.prep_g2[(a(2) + t) % sh.prep_g2.len()])).collect();
+                (0..n).map(|t| (&sh.prep_g1[(a(1) + t) % sh.prep_g1.len()], &sh.prep_g2[(a(2) + t) % sh.prep_g2.len().max(1)])).collect();
             let f = if a(3) % 2 == 1 { Bls12::miller_loop(YIter(pairs.iter())) } else { Bls12::miller_loop(pairs.iter()) };
             f.img(&mut out);
         }
